@@ -2,7 +2,8 @@
 from .. import gens
 from ..gens import sig_fields, pkt_fields
 
-RULE = ("match ops: structured signature x full packet signature x max_dist, compared on the match type. Exhaustive TTL grid, "
+RULE = ("API level (histq ops): signature TEXT derived from a random SYN / SYN+ACK segment, generalised and perturbed in 0-2 criteria, loaded through Database.load into a "
+        "one-record database and matched against the segment's bytes with fingerprint_tcp at several max_dist values (observable: match type and distance). match ops: structured signature x full packet signature x max_dist, compared on the match type. Exhaustive TTL grid, "
         "exhaustive single/pair quirk differences, window forms against boundary windows, random pairs derived from a packet by "
         "perturbing 0-2 criteria. Non-trivial = the layouts are equal (the match is decided by a later criterion).")
 ASSUMPTIONS = ["function-level op constructs TCPSignature / TCPPacketSignature directly; parsing of signature text is tied by the C09/C10/C18 checks and extraction by C03",
@@ -77,8 +78,83 @@ def perturb(r, s, p):
         s["ver"] = r.choice([4, 6, -1])
 
 
+def text_perturb(r, sig):
+    """perturb 0-2 criteria of a signature TEXT (version, ttl, olen, mss, window, scale, quirks, payload class)"""
+    f = sig.split(":")
+    for _ in range(r.choice([0, 0, 1, 1, 2])):
+        k = r.choice(["ttl", "ttl", "quirk", "quirk", "mss", "win", "scale", "olen", "pay", "ver", "badttl", "layout"])
+        try:
+            if k == "ttl":
+                t = int(f[1].rstrip("-").split("+")[0]) + r.choice([-1, 1, 5, 35, 36, 40, -30])
+                f[1] = str(max(1, min(255, t)))
+            elif k == "badttl":
+                f[1] = f[1].rstrip("-").split("+")[0] + "-"
+            elif k == "quirk":
+                qs = f[6].split(",") if f[6] else []
+                q = r.choice(["df", "id+", "id-", "ecn", "0+", "seq-", "ack+", "pushf+", "flow", "ts1-", "exws"])
+                if q in qs:
+                    qs.remove(q)
+                else:
+                    qs.append(q)
+                if f[0] == "4":
+                    qs = [x for x in qs if x != "flow"]
+                if f[0] == "6":
+                    qs = [x for x in qs if x not in ("df", "id+", "id-", "0+")]
+                f[6] = ",".join(qs)
+            elif k == "mss":
+                f[3] = r.choice(["*", "1460", "0", "536", f[3]])
+            elif k == "win":
+                w, _, sc = f[4].partition(",")
+                w = r.choice(["*", "%2", "%3", "mss*4", "mss*10", "mtu*4", "8192", w])
+                f[4] = w + "," + sc
+            elif k == "scale":
+                w, _, sc = f[4].partition(",")
+                f[4] = w + "," + r.choice(["*", "0", "7", "14", sc])
+            elif k == "olen":
+                f[2] = r.choice(["0", "4", "8"])
+            elif k == "pay":
+                f[7] = r.choice(["*", "0", "+"])
+            elif k == "ver":
+                f[0] = r.choice(["*", "4", "6"])
+                qs = f[6].split(",") if f[6] else []
+                if f[0] == "4":
+                    qs = [x for x in qs if x != "flow"]
+                if f[0] == "6":
+                    qs = [x for x in qs if x not in ("df", "id+", "id-", "0+")]
+                f[6] = ",".join(qs)
+            elif k == "layout":
+                f[5] = f[5] + ",nop" if f[5] else "nop"
+        except ValueError:
+            pass
+    return ":".join(f)
+
+
+def api_level(ctx):
+    """signature TEXT (through Database.load) x wire bytes (through fingerprint_tcp) at several max_dist values"""
+    from .. import core, impgen
+    r = ctx.rng
+    srcs = [impgen.source_packet(r) for _ in range(ctx.n(9000, 200000))]
+    texts = core.run_driver(["printsig\t%s\t%s" % (v, b.hex()) for v, b in srcs])
+    hx = lambda t: t.encode().hex()
+    ops = []
+    for (v, raw), t in zip(srcs, texts):
+        if " -> " not in t or t.startswith("SKIP"):
+            continue
+        sig = t.split(" -> ")[0]
+        if r.random() < 0.7:
+            sig = impgen.generalise(r, sig)
+        sig = text_perturb(r, sig)
+        flags = raw[(raw[0] & 15) * 4 + 13] if v == "4" else raw[40 + 13]
+        sec = "response" if flags & 0x10 else "request"
+        db = f"[tcp:{sec}]\nlabel = s:unix:X:\nsig = {sig}\n"
+        ops.append("histq\tL:" + hx(db) + f"\tT:{v}:{raw.hex()}:0:{r.choice([35, 35, 35, 0, 4, 255])}")
+    ctx.correspond(ops, nontrivial=lambda l, a: " ; " in a and not a.split(" ; ")[1].startswith(("none", "ERR")), label="api-text-x-wire",
+                   tagger=lambda l, a: (a.split(" ; ")[1].split(" ")[1] if " ; " in a and len(a.split(" ; ")[1].split(" ")) == 3 else a.split(" ; ")[-1][:10]))
+
+
 def run(ctx):
     r = ctx.rng
+    api_level(ctx)
     # 1. exhaustive TTL grid
     ops = []
     dists = [0, 34, 35, 36, 255, -1] if not ctx.quick() else [0, 35, 36, -1]
